@@ -6,6 +6,7 @@ package e5
 import (
 	"encoding/json"
 	"fmt"
+	"io"
 	"strings"
 	"time"
 
@@ -22,6 +23,8 @@ type Ctx struct {
 	WD       *hx.Watchdog
 	stop     bool
 	unit     int
+	// one simulator per configuration for the very large cores of C16
+	bigSims map[string]g.Simulator
 }
 
 func (c *Ctx) expired() bool {
@@ -63,6 +66,37 @@ type textCase struct {
 	Start  int    `json:"start"`
 	Note   string `json:"note,omitempty"`
 	MaxLen uint64 `json:"max_length,omitempty"` // configured maximum warrior length (0: the default of cfgOf)
+	Chunk  int    `json:"chunk,omitempty"`      // the reader hands out at most this many bytes per Read call (0: everything at once)
+}
+
+// chunkReader is an io.Reader that returns short reads.
+type chunkReader struct {
+	s     string
+	pos   int
+	chunk int
+}
+
+func (r *chunkReader) Read(p []byte) (int, error) {
+	if r.pos >= len(r.s) {
+		return 0, io.EOF
+	}
+	n := r.chunk
+	if n > len(p) {
+		n = len(p)
+	}
+	if n > len(r.s)-r.pos {
+		n = len(r.s) - r.pos
+	}
+	copy(p, r.s[r.pos:r.pos+n])
+	r.pos += n
+	return n, nil
+}
+
+func (t *textCase) reader() io.Reader {
+	if t.Chunk > 0 {
+		return &chunkReader{s: t.Text, chunk: t.Chunk}
+	}
+	return strings.NewReader(t.Text)
 }
 
 func (t *textCase) cfg() g.SimulatorConfig {
@@ -90,7 +124,7 @@ func (c *Ctx) load(prop string, t *textCase) (w g.WarriorData, err error, pan st
 		}
 	}()
 	c.Rep.Transitions++
-	w, err = g.ParseLoadFile(strings.NewReader(t.Text), t.cfg())
+	w, err = g.ParseLoadFile(t.reader(), t.cfg())
 	return
 }
 
@@ -103,12 +137,23 @@ func (c *Ctx) compile(prop string, t *textCase) (w g.WarriorData, err error, pan
 		}
 	}()
 	c.Rep.Transitions++
-	w, err = g.CompileWarrior(strings.NewReader(t.Text), t.cfg())
+	w, err = g.CompileWarrior(t.reader(), t.cfg())
 	return
 }
 
 // check09: both readers must reproduce the warrior.
 func (c *Ctx) check09(t *textCase) {
+	c.check09once(t)
+	if t.Chunk == 0 {
+		// the same text through a reader that returns short reads (the size rotates)
+		t2 := *t
+		t2.Chunk = []int{1, 2, 3, 7, 100, 4095}[c.Rep.Counters["c09:texts-through-short-reads"]%6]
+		c.check09once(&t2)
+		c.Rep.Count("c09:texts-through-short-reads")
+	}
+}
+
+func (c *Ctx) check09once(t *textCase) {
 	rep := c.Rep
 	rep.States++
 	fail := func(kind, detail string) {
